@@ -864,24 +864,26 @@ class ShiftRight(Logic):
         last = a
         w = last.getWidth()
         wb = b.getWidth()
+        # width of the pre-extension for arithmetic shifts: the sign fill must reach the top of r for every amount
+        we = max(w, r.getWidth()) + (1<<wb)
         
         if (isinstance(arithmetic, Wire)):
             self.addIn('arithmetic', arithmetic)
             
-            signExtended = self.wire(f'sign_extended', w + (1<<wb))
+            signExtended = self.wire(f'sign_extended', we)
             SignExtend(self, f'sign_extended', last, signExtended)
             
-            zeroExtended = self.wire(f'zero_extended', w + (1<<wb))
+            zeroExtended = self.wire(f'zero_extended', we)
             ZeroExtend(self, f'zero_extended', last, zeroExtended)
 
-            last = self.wire(f'extended', w + (1<<wb))
+            last = self.wire(f'extended', we)
             
             Mux2(self, 'extended', arithmetic, zeroExtended, signExtended, last)
             w = last.getWidth()           
             
         else:
             if (arithmetic):
-                signExtended = self.wire(f'sign_extended', w + (1<<wb))
+                signExtended = self.wire(f'sign_extended', we)
                 SignExtend(self, f'sign_extended', last, signExtended)
                 last = signExtended
                 w = last.getWidth()
